@@ -297,7 +297,7 @@ func expandPayload(payload []byte, version QueryVersion) (Response, error) {
 
 	for _, param := range parseParams(payload) {
 		// \obj_Neutralize_All_Enemies\0\
-		if bytes.Equal(param.Name[:4], []byte("obj_")) {
+		if bytes.HasPrefix(param.Name, []byte("obj_")) {
 			if len(param.Name) > 4 {
 				objectives = append(objectives, map[string]string{
 					"name":   string(param.Name[4:]),
